@@ -37,6 +37,9 @@ def universe():
     VT = ufl.variable(ufl.grad(v) + ufl.Identity(2))
     VA = ufl.variable(A)
     Vn = ufl.variable(Vs * g + Vs**2)  # variable of an expression containing another variable
+    # variables wrapping expressions that derivative expansion itself rewrites (grad of a non-terminal, a nested diff)
+    Vg = ufl.variable(ufl.grad(f * g))
+    Vd = ufl.variable(ufl.diff(Vs**2 * g, Vs))
     t = {
         "f": f,
         "g": g,
@@ -49,10 +52,12 @@ def universe():
         "VT": VT,
         "VA": VA,
         "Vn": Vn,
+        "Vg": Vg,
+        "Vd": Vd,
         "two": ufl.as_ufl(2),
     }
     U = L.Universe(t)
-    U.vars = ["Vs", "Vp", "Vv", "VT", "VA", "Vn", "f", "v"]
+    U.vars = ["Vs", "Vp", "Vv", "VT", "VA", "Vn", "Vg", "Vd", "f", "v"]
     return U
 
 
@@ -71,7 +76,7 @@ def make_check(U, quick):
         cfgs = []
         for vn in U.vars:
             cfgs.append((f"diff(.,{vn})", [vn]))
-        for a in ("Vs", "Vv", "VT", "Vn", "f"):
+        for a in ("Vs", "Vv", "VT", "Vn", "Vg", "Vd", "f"):
             cfgs.append((f"diff(diff(.,{a}),{a})", [a, a]))
         cfgs += [("diff(diff(.,Vs),Vv)", ["Vs", "Vv"]), ("diff(diff(.,VT),Vs)", ["VT", "Vs"]), ("diff(diff(.,Vn),Vs)", ["Vn", "Vs"]),
                  ("diff(diff(.,Vs),Vn)", ["Vs", "Vn"]), ("diff(diff(.,f),Vs)", ["f", "Vs"])]
@@ -175,7 +180,7 @@ def main(argv):
     l1 = level(c, 1, sample_every=40)
     c = []
     fns2 = SCALAR_FNS if not quick else ["sqrt", "exp", "ln", "sin", "abs"]
-    partners = ["Vs", "Vv", "VT", "Vn", "f"] if quick else ["Vs", "Vp", "Vv", "VT", "VA", "Vn", "f", "v", "g"]
+    partners = ["Vs", "Vv", "VT", "Vn", "Vg", "Vd", "f"] if quick else ["Vs", "Vp", "Vv", "VT", "VA", "Vn", "Vg", "Vd", "f", "v", "g"]
     bops = ("mul", "add", "dot", "inner") if quick else ("mul", "add", "sub", "div", "pow", "dot", "inner", "outer")
     for s in l1:
         if s.cond or s.fid:
